@@ -121,6 +121,7 @@ class TermAlg:
         self.fstack: List[FuncInfo] = []
         self.signs: Dict[Any, int] = {}  # sign assumptions on symbols: ("sym", name) -> +1 / -1
         self.ext_stubs: Dict[str, Any] = {}  # dotted name of a third-party callable -> fn(ta, pos, kw)
+        self._class_vals: Dict[Any, Any] = {}  # (class, name) -> the one object a class-level binding denotes
 
     # ------------------------------------------------------------ builders
     def term(self, keys: List[Key], prefix: str, const_name: Optional[str] = None) -> Rec:
@@ -452,6 +453,9 @@ class TermAlg:
         if fi is not None and e.id in fi.module.assigns and isinstance(fi.module.assigns[e.id], (ast.Tuple, ast.List, ast.Constant, ast.Dict, ast.Set)):
             # a constant table / literal of the module
             return self.eval(fi.module.assigns[e.id], {})
+        if fi is not None and e.id in fi.module.assigns and isinstance(fi.module.assigns[e.id], (ast.BinOp, ast.Name)) and all(isinstance(x_, (ast.BinOp, ast.Name, ast.Tuple, ast.List, ast.Constant, ast.Add, ast.Load, ast.UnaryOp, ast.USub)) for x_ in ast.walk(fi.module.assigns[e.id])):
+            # a table put together from other tables of the module (KEYS = TERM_KEYS + VARIABLE_KEYS)
+            return self.eval(fi.module.assigns[e.id], {})
         if e.id == "open":
             return ("extmod", "builtins.open")
         if e.id == "print":
@@ -478,6 +482,18 @@ class TermAlg:
                 if fi.kind == "property":
                     return self.call(fi, [], {}, self_val=b)
                 return ("bound", b, fi)
+            # a class-level value (one object per class, shared by the instances that do not store their own)
+            cname_ = b.cls
+            seen_ = set()
+            while cname_ in self.prog.classes and cname_ not in seen_:
+                seen_.add(cname_)
+                ci_ = self.prog.classes[cname_]
+                if e.attr in ci_.class_assigns:
+                    key_ = (cname_, e.attr)
+                    if key_ not in self._class_vals:
+                        self._class_vals[key_] = self.eval(ci_.class_assigns[e.attr], {})
+                    return self._class_vals[key_]
+                cname_ = ci_.base_names[0] if ci_.base_names else ""
             raise AnalysisError("unknown attribute %s.%s" % (b.cls, e.attr))
         if b == ("builtin", "chain") and e.attr == "from_iterable":
             return ("builtin", "chain.from_iterable")
@@ -1171,8 +1187,23 @@ class TermAlg:
                     if not pos:
                         return DictV()
                     if isinstance(pos[0], DictV):
-                        return DictV(pos[0].d)
-                    raise AnalysisError("dict(%s) outside the kernel fragment" % norm(e.args[0]))
+                        d_ = DictV(pos[0].d)
+                    else:
+                        # dict(pairs): later pairs overwrite earlier ones with the same key
+                        d_ = DictV()
+                        for pair_ in self.iterate(pos[0], e):
+                            kv_ = self.iterate(pair_, e)
+                            if len(kv_) != 2:
+                                raise Raised("ValueError")
+                            k_ = kv_[0]
+                            if isinstance(k_, (ListV, DictV)) and not isinstance(k_, TupV):
+                                raise Raised("TypeError")
+                            if not (isinstance(k_, Key) or (isinstance(k_, tuple) and k_ and k_[0] == "str")):
+                                raise AnalysisError("dict(%s) with keys outside the kernel fragment" % norm(e.args[0]))
+                            d_.d[k_] = kv_[1]
+                    for kk_, vv_ in kw.items():
+                        d_.d[("str", kk_)] = vv_
+                    return d_
                 if n == "sorted":
                     items = self.iterate(pos[0], e)
 
